@@ -326,6 +326,8 @@ def run(ctx):
         nontrivial.add(("file", name))
         for cls, text in out:
             ctx.violation(f"C19|shipped|{cls}|{name}", text, {"mode": "shipped", "file": name})
+    ctx.sample({"shipped_case": {"file": os.path.basename(files[ctx.seed % len(files)]), "steps": "parse -> set_snapshot -> real async client connects -> block compared"}})
+    ctx.sample({"traffic_case": {"segment_size": sizes[ctx.seed % len(sizes)], "log": "DEBUG log of the blocking client's handshake, parsed back"}})
     ctx.set("shipped_files", len(files))
     ctx.set("shipped_snapshots", total_snaps)
     ctx.log(f"(c) {len(files)} shipped files holding {total_snaps} snapshots")
